@@ -4,7 +4,7 @@ from .c02 import project
 
 PROP = 'C10'
 PREDICATE = 'C10'
-LEAN_TARGETS = ['LLTD.Props.C10', 'LLTD.Props.C10H']
+LEAN_TARGETS = ['LLTD.Props.C10', 'LLTD.Props.C10H', 'LLTD.Props.C10T']
 VARIANT = 'plain'
 RULE = ('two responder instances A and B (distinct addresses from a near-collision pool) in one process: a mapper orders A to emit 1..20 '
         'Probe/Train frames towards B (some towards other stations), A\'s transmitted frames are delivered unmodified to B (`relay`), '
